@@ -198,7 +198,7 @@ func cmdCheck(args []string) int {
 	seed, _ := strconv.Atoi(envOr("VERIF_SEED", "1"))
 	start := time.Now()
 	thorough := *tier == "thorough"
-	timeout := 20
+	timeout := 40
 	if thorough {
 		timeout = 120
 	}
